@@ -27,6 +27,11 @@ CLAIMED = {
         "Decides that orc_bytecode_from_program and orc_bytecode_parse_function agree on the field layout of every tag and of instruction operands, that parameter and variable classes map back to themselves through the constructors the decoder calls, that ORC_BC_<op> numbering equals 32 + table index with all opcodes below the 255 escape, and that the integer codecs mirror each other. Behavioural equality of the reconstructed program is not decided.",
         "Trusted: clang AST/CFG. Declined: names/alignments that the format does not carry, 64-bit constants passed through int APIs, asserting boundary values.",
         "DESIGN.md §4 C13"),
+    "C19": (
+        "control-dependence of feature-flag stores on cpuid bit tests (reaching cpuid leaf per register, path-aware expansion of boolean locals) against an architectural reference table; must-facts at returns of is_executable/get_default; dominance order of registrations; cross-artefact check code vs doc/running.xml",
+        "Decides that each detected feature flag is set only under the cpuid bit that implies it, that AVX flags also require XSAVE/OSXSAVE and the XCR0 ymm check, that a backend reports itself executable only under its base ISA flags and every other target object is created non-executable, that mmx/sse/avx are registered in increasing order with only executable targets replacing the default, that default flags carry only detected feature bits, and that the environment override is the documented variable, is freed, and cannot return a non-executable target. Behaviour per concrete CPU is not executed.",
+        "Trusted: cpuid bit positions from the Intel SDM / AMD APM (table in rules/c19.py); this sandbox's build configuration (HAVE_AMD64).",
+        "DESIGN.md §4 C19"),
 }
 
 NOT_YET = "check under construction in this round; not claimed until its rules are exact on the current tree"
